@@ -21,9 +21,9 @@ structure CoerceEnv where
   floatOf : List (String × Flt) := []
   reprOf : List (Flt × String) := []
   boolWords : List (String × Bool) := []
-  /-- first element of `LiteralMethod.types` (a tuple made from a *set* of classes: the order is the
-      interpreter's; the harness reads it off the same construction) -/
-  litFirst : List (List Lit × JClass) := []
+  /-- `LiteralMethod.types` (a tuple made from a *set* of classes: the order is the interpreter's; the
+      harness reads it off the same construction) -/
+  litTypes : List (List Lit × List JClass) := []
   deriving Repr, Inhabited
 
 inductive Meth where
@@ -56,12 +56,10 @@ inductive Meth where
 
 /-! ## helpers, one per Python helper -/
 
-/-- `bad_type(data, *expected)`; `JsonType.from_type(data.__class__)` raises `TypeError` for a class
-    that is not one of the seven -/
+/-- `bad_type(data, *expected)`; since the repair of row 6 the class of a datum that is not an instance of
+    the seven JSON classes is named in the message (`found = none` here) instead of raising `TypeError` -/
 def badType (exps : List JClass) (d : Py) : Outcome Val :=
-  match d.jclass? with
-  | some c => .invalid (.ofMsgs (exps.map (fun e => .badType e (some c))))
-  | Option.none => .crash "TypeError"
+  .invalid (.ofMsgs (exps.map (fun e => .badType e d.jclass?)))
 
 /-- accumulated state of a container loop -/
 structure Acc where
@@ -366,27 +364,29 @@ def Py.isInstance (d : Py) (c : JClass) : Bool :=
   | .dict, .dict _ => true | .dict, .dictNS _ => true
   | _, _ => false
 
-/-- `int(float)`: truncation; `nan` → `ValueError`, infinities → `OverflowError` -/
+/-- `int(float)`: truncation; `nan` → `ValueError`, infinities → `OverflowError`; the coercer turns both
+    into `bad_type` (since the repair of rows 4 / 39) -/
 def truncFlt (f : Flt) : Outcome Py :=
   match f with
   | .fin q => .ok (.int (Int.tdiv q.num q.den))
-  | .nan => .invalid (.ofMsgs [.badType .int (some .float)])
-  | _ => .crash "OverflowError"
+  | _ => .invalid (.ofMsgs [.badType .int (some .float)])
 
+/-- the default coercer (`coercion.coerce`) after the repair of rows 4 / 39: every failed conversion is a
+    `bad_type` (`ValueError`, `TypeError`, `OverflowError`, `KeyError` of the word table are all caught; the
+    `''`-test is guarded by `isinstance(data, str)`) -/
 def coerce (env : CoerceEnv) (c : JClass) (d : Py) : Outcome Py :=
   match c with
   | .null =>
       match d with
       | .null => .ok .null
       | .str s => if s == "" then .ok .null else badTypeP .null d
-      | .list _ | .dict _ | .dictNS _ => .crash "TypeError"      -- `data in {""}` hashes the datum
       | _ => badTypeP .null d
   | .bool =>
       match d with
       | .bool _ => .ok d
       | .str s => match assoc? s.toLower env.boolWords with
           | some b => .ok (.bool b)
-          | Option.none => .crash "KeyError"
+          | Option.none => badTypeP .bool d
       | .int i => .ok (.bool (i != 0))
       | _ => badTypeP .bool d
   | .int =>
@@ -396,18 +396,18 @@ def coerce (env : CoerceEnv) (c : JClass) (d : Py) : Outcome Py :=
       | .str s => match assoc? s env.intOf with
           | some i => .ok (.int i)
           | Option.none => badTypeP .int d
-      | _ => .crash "TypeError"
+      | _ => badTypeP .int d
   | .float =>
       match d with
       | .float _ => .ok d
       | .bool b => .ok (.float (.fin (if b then 1 else 0)))
       | .int i => match intToFlt i with
           | some f => .ok (.float f)
-          | Option.none => .crash "OverflowError"
+          | Option.none => badTypeP .float d
       | .str s => match assoc? s env.floatOf with
           | some f => .ok (.float f)
           | Option.none => badTypeP .float d
-      | _ => .crash "TypeError"
+      | _ => badTypeP .float d
   | .str =>
       match d with
       | .str _ => .ok d
@@ -418,24 +418,31 @@ def coerce (env : CoerceEnv) (c : JClass) (d : Py) : Outcome Py :=
       | _ => badTypeP .str d
   | c => if d.isInstance c then .ok d else badTypeP c d
 
-/-- `LiteralMethod` with a coercer: on a miss, the datum coerced to the *first* class of `types` is looked
-    up; only `IndexError` is caught, so a second miss is a `KeyError` and the other classes are never tried -/
+/-- `LiteralMethod` with a coercer (after the repair of row 5): on a miss, the datum is coerced to each class
+    of `types` in turn (a tuple made from a *set* of classes: the order is the interpreter's, the harness
+    reads it off the same construction); a coerced value that is a literal is returned, a coerced value that
+    is not (`KeyError`) moves on to the next class, a `ValidationError` of the coercer escapes -/
+def tryLitClasses (env : CoerceEnv) (vs : List Lit) (en : Option (String × List String)) (d : Py) :
+    List JClass → Outcome Val
+  | [] => runLiteral vs en d
+  | c :: cs =>
+      match coerce env c d with
+      | .ok d' =>
+          (match runLiteral.lastMatch d' vs 0 Option.none with
+           | some _ => runLiteral vs en d'
+           | Option.none => tryLitClasses env vs en d cs)
+      | .invalid e => .invalid e
+      | .crash x => .crash x
+
 def runLiteralC (env : CoerceEnv) (vs : List Lit) (en : Option (String × List String)) (d : Py) : Outcome Val :=
   if !d.hashable then runLiteral vs en d
   else
     match runLiteral.lastMatch d vs 0 Option.none with
     | some _ => runLiteral vs en d
     | Option.none =>
-        match assoc? vs env.litFirst with
+        match assoc? vs env.litTypes with
         | Option.none => runLiteral vs en d
-        | some c =>
-            match coerce env c d with
-            | .ok d' =>
-                (match runLiteral.lastMatch d' vs 0 Option.none with
-                 | some _ => runLiteral vs en d'
-                 | Option.none => .crash "KeyError")
-            | .invalid e => .invalid e
-            | .crash x => .crash x
+        | some cs => tryLitClasses env vs en d cs
 
 def bindPy (r : Outcome Py) (k : Py → Outcome Val) : Outcome Val :=
   match r with | .ok d => k d | .invalid e => .invalid e | .crash x => .crash x
@@ -489,7 +496,7 @@ def run : Meth → Py → Outcome Val
   | .literalC env vs en, d => runLiteralC env vs en d
   | .unionByType tbl, d =>
       match d.jclass? with
-      | Option.none => .crash "TypeError"        -- KeyError → bad_type → from_type fails
+      | Option.none => badType (tbl.map (·.1)) d   -- KeyError → bad_type (total since the repair of row 6)
       | some c => runByType tbl tbl c d
   | .union ms, d => runUnion ms d Option.none
   | .fail exn, _ => .crash exn
